@@ -25,7 +25,7 @@ PROPS = {
     "C03": {
         "module": "Cdecao.Props.C03",
         "theorems": ["Props.C03", "Props.C03_bounded_of_spec", "Props.C03_caobab"],
-        "streams": ["engine", "solve", "engine-exhaustive"],
+        "streams": ["engine", "solve", "solve-rooms", "engine-exhaustive"],
     },
     "C04": {
         "module": "Cdecao.Props.C04",
@@ -35,7 +35,7 @@ PROPS = {
     },
     "C05": {
         "module": "Cdecao.Props.C05",
-        "theorems": ["Props.C05_regs", "Props.C05_courses", "Props.C05_no_cancelled_assignment"],
+        "theorems": ["Props.C05_regs", "Props.C05_courses", "Props.C05_no_cancelled_assignment", "Props.C05_consistent", "Props.C05_consistent_anyKeys"],
         "streams": ["e2e-cde"],
     },
     "C06": {
@@ -66,7 +66,7 @@ PROPS = {
     },
     "C11": {
         "module": "Cdecao.Props.C11",
-        "theorems": ["Props.C11_max", "Props.C11_min", "Props.C11_min_le_max", "Props.C11_fixed", "Props.C11_fixed_written"],
+        "theorems": ["Props.C11_max", "Props.C11_min", "Props.C11_min_le_max", "Props.C11_fixed", "Props.C11_fixed_written", "Props.C11_consistent"],
         "streams": ["cdedb-read", "e2e-cde"],
     },
     "C12": {
@@ -129,12 +129,12 @@ LEVELS = {
             "note": _NODE + " " + _ENG + " Partial with respect to the full property: inside the F1 class the property is false of the code (known finding), the theorem covers the complement."},
     "C17": {"text": "Theorem Props.C17_rooms_le_opt: with any room list the reported score is the documented score of an assignment satisfying the hard constraints, hence at most any upper bound of the room-free optimum (all T, schedules). Props.C17_rooms_nonbinding: with a room list that cannot bind (every room among the I.C largest at least as large as any course can become, R.eff c n for n <= num_max + #instructors — no monotonicity of the float formula needed) every node result equals the one without room list; C17_rooms_nonbinding_search lifts it to identical reachable engine configurations for every thread count and schedule. Paired real runs (identical verdict, score and node-by-node identical search trees) and the brute-force optimum tie it to the code.",
             "note": _NODE + " The effective size is the documented formula as evaluated in f32 (the paired-run generator includes the f32/f64 corner)."},
-    "C03": {"text": "Theorem Props.C03: two finished runs of the engine model on a bounded tree agree on found/score for all thread counts and schedules. Props.C03_caobab discharges the premise for the caobab node solver (valid instances outside the F1 class, with or without rooms, any float behaviour); inside the F1 class Bounded stays a hypothesis and real runs under 3-6 seeded schedules x thread counts must agree.",
+    "C03": {"text": "Theorem Props.C03: two finished runs of the engine model on a bounded tree agree on found/score for all thread counts and schedules. Props.C03_caobab discharges the premise for the caobab node solver (valid instances outside the F1 class, with or without rooms, any float behaviour); inside the F1 class the property is FALSE of the code (known finding F11: a child's relaxation can exceed its parent's, so the score depends on the schedule; witness replayed on every run); a schedule-dependent verdict is the known finding only if the instance is in the class AND the model's own tree is not Bounded; anything else is a violation.",
             "note": _ENG + " Partial only inside the F1 class (instructors with own choices of non-fixed courses), where `Bounded` is not proved."},
     "C04": {"text": "Theorems Props.C04_no_deadlock, C04_done_means_finished, C04_stats_step, C04_bounded_work C04_exactly_once_at_done (ghost history: at AllDone the multiset of generated subproblems = solved ⊎ bounded, none twice, none lost, and the counters are the lengths), C04_run_bound_init (a run from init with at most s wake events has at most W root + 3T + 3(T² + s) non-wake events) and C04_stats_at_done (at AllDone: executed = no-solution + infeasible + feasible and generated = executed + bound, for every reachable run of the product system), C04_done_absorbing, over the engine model, all T >= 1 and schedules incl. spurious wake-ups; every real run under the shim is replayed through the model with all six counters compared, and the shim's deadlock detector and step budget watch the real code.",
             "note": _ENG},
-    "C05": {"text": "Writer theorems Props.C05_regs / C05_courses / C05_no_cancelled_assignment over the model of io::cdedb::write; end to end through the REAL binary: generated exports x option combinations -> import file -> (a) independent reference model of the partial import + the clauses of C05 in database ids (Python), (b) the Lean models: reader (CD.read), decoded assignment, writer equality, HardOK and RoomOK evaluated by the driver on the problem the model reads.",
-            "note": "io/cdedb.rs reader and writer are modelled by CD.read / CD.writeRegs / CD.writeCourses from the serde_json value on (bytes -> value is serde_json's). The composition theorem `Consistent` (reader + HardOK + writer) is not assembled yet: partial."},
+    "C05": {"text": "Props.C05_consistent (assembled: reader ∘ any HardOK assignment ∘ writer): for every export the reader accepts and every assignment satisfying the hard constraints of the problem that was read, the written registrations/courses objects name only registrations of the export with status participant in the selected part (never an ignored pre-assigned one) and only courses offered in the selected track (not ignored-cancelled), the assigned course is written as taking place and was chosen or is instructed per the EXPORT's choice list, every course written as taking place has min_size <= new + ignored attendees and (new = 0 or new + ignored <= max_size) in terms of the export's sizes with defaults, and nobody is assigned to a course written as cancelled. HardOK of the solver's output is C01 (Props.C01_C08_cde for the CdE path). Writer theorems Props.C05_regs / C05_courses / C05_no_cancelled_assignment over the model of io::cdedb::write; end to end through the REAL binary: generated exports x option combinations -> import file -> (a) independent reference model of the partial import + the clauses of C05 in database ids (Python), (b) the Lean models: reader (CD.read), decoded assignment, writer equality, HardOK and RoomOK evaluated by the driver on the problem the model reads.",
+            "note": "io/cdedb.rs reader and writer are modelled by CD.read / CD.writeRegs / CD.writeCourses from the serde_json value on (bytes -> value is serde_json's). Distinctness of the course keys as parsed numbers (`NodupKeys`, e.g. no keys 7 and 07) is a hypothesis of clause (e) and of the by-key counts; the real database never produces such keys."},
     "C06": {"text": "Theorem Props.C06: under a room list the incumbent's effective sizes, sorted descending, fit the descending room list rank by rank, for every eff function (no float reasoning), every T and schedule. RoomOK is also evaluated in Lean (native Float32) on every assignment the real code returns with rooms.",
             "note": _NODE + " The effective size is the documented formula as evaluated in f32."},
     "C07": {"text": "Theorems Props.C07_partial (perfect matching, score = weight, optimal) and C07_total (returns whenever a constrained perfect matching exists) about H2.run, all sizes/weights/masks; exact correspondence (matching array and score) on random matrices, Perfect/weight evaluated in Lean on the real output, brute-force optimum for <= 9 rows.",
@@ -145,8 +145,8 @@ LEVELS = {
             "note": _ENG},
     "C10": {"text": "Theorems Props.C10_node / C10_tree: no panic site of run_bab_node (11 sites + the Hungarian routine's own) is reachable at any node of the search tree of a well-formed instance with num_min <= num_max. The CLI half (exit status 0/1, no output file on 1) is checked on the real binary once the cli streams are built.",
             "note": _NODE + " f32 behaviour is a parameter (after fix F9 totality needs no float property)."},
-    "C11": {"text": "Arithmetic and writer theorems about adapt_course_for_invisible_participants (places reserved: max counting pre-assigned, min counting both groups, course fixed, fixed course written active) + exact correspondence of the reader (incl. invisible counts, hidden names, external quality data) on generated exports with arbitrary existing assignments, all four option combinations, and the end-to-end consistency oracle with both-groups counts through the real binary.",
-            "note": "Model CD.read/CD.adapt; the room offset change is applied natively (f32) by the driver. Non-reassignment of ignored registrations follows from the reader correspondence + writer theorem (only participants are named); stated in Lean only at the component level (partial)."},
+    "C11": {"text": "Props.C11_consistent (assembled): ignored pre-assigned registrations are never named in the file; a course with ignored people is fixed, treated as taking place and written active; original minimum met and original maximum respected counting both groups (ignoredCount defined on the EXPORT); with --ignore-cancelled no cancelled course of the track appears in the file at all. Arithmetic and writer theorems about adapt_course_for_invisible_participants (places reserved: max counting pre-assigned, min counting both groups, course fixed, fixed course written active) + exact correspondence of the reader (incl. invisible counts, hidden names, external quality data) on generated exports with arbitrary existing assignments, all four option combinations, and the end-to-end consistency oracle with both-groups counts through the real binary.",
+            "note": "Model CD.read/CD.adapt; the room offset change is applied natively (f32) by the driver. Room fitting with both groups rests on the offset correspondence (f32) and C06."},
     "C12": {"text": "Theorems Props.C12_read (assembled characterisation of CD.read: participants = the registrations of the selected part with status participant, not ignored, having a valid choice or instructing a kept course, in key order; courses = offered (and not ignored) ones, stably sorted by the padded number; instructor indices point at the instructing registration), C12_choices (penalty = position in the ORIGINAL list, skipped courses leave gaps), C12_courses, refusals (kind, version, no track, two tracks unselected, unknown track), defaults from the re-extracted constants; exact correspondence of CD.read with io::cdedb::read (courses, participants, choices/penalties, sizes, f32 factor/offset bits, ambience data, Ok/Err) on generated exports incl. single-field corruptions; an independent declarative re-statement (Python) as oracle.",
             "note": "Model starts at the serde_json value; timestamp syntax by a simplified recogniser exact on the generator's domain; canonical decimal keys only."},
     "C13": {"text": "Theorem Props.C13_read (non-interference of the reader): two export values that agree on kind/version/timestamp/event/id and whose course and registration records agree on the views the reader consults (status of the selected part, the two names, course_id/course_instructor/choices of the selected track, segments[track], nr, shortname, sizes, fields) — and, without --ignore-assigned, differ arbitrarily in course_id among known ids, without --ignore-cancelled in the true/false value of the selected track's segment — give the SAME reader result (problem, ambience data or refusal). Everything after the reader is a function of the problem (one worker). Pairs of exports (1-10 irrelevant edits of 9 kinds) go through the in-process reader and, with one worker, through the real binary (files compared after stripping timestamps).",
